@@ -272,6 +272,27 @@ func c02Compare(b *c02Built, file []byte) (diffs []string, got *signedexchange.E
 	if pan != "" || rerr != nil {
 		return append(diffs, fmt.Sprintf("ReadExchange: err=%v panic=%q", rerr, pan)), nil
 	}
+	// the same file through readers that return short reads (one byte at a time; data together
+	// with io.EOF): the result must not depend on how the bytes arrive
+	for _, style := range []mc.ReadStyle{mc.ReadOneByte, mc.ReadEOFWithData} {
+		var g2 *signedexchange.Exchange
+		var e2 error
+		func() {
+			defer func() {
+				if r := recover(); r != nil {
+					e2 = fmt.Errorf("panic: %v", r)
+				}
+			}()
+			g2, e2 = signedexchange.ReadExchange(mc.NewChunkReader(file, style))
+		}()
+		if e2 != nil {
+			return append(diffs, fmt.Sprintf("ReadExchange through a %v reader: %v", style, e2)), nil
+		}
+		if g2.RequestURI != got.RequestURI || g2.RequestMethod != got.RequestMethod || g2.ResponseStatus != got.ResponseStatus || g2.SignatureHeaderValue != got.SignatureHeaderValue ||
+			!bytes.Equal(g2.Payload, got.Payload) || fmt.Sprint(g2.ResponseHeaders) != fmt.Sprint(got.ResponseHeaders) || fmt.Sprint(g2.RequestHeaders) != fmt.Sprint(got.RequestHeaders) {
+			return append(diffs, fmt.Sprintf("ReadExchange through a %v reader returns a different exchange than through bytes.Reader", style)), nil
+		}
+	}
 	if string(got.Version) != x.Version.String() {
 		diffs = append(diffs, fmt.Sprintf("ReadExchange: version %v", got.Version))
 	}
